@@ -1191,7 +1191,9 @@ def check_C02(rep, prog, tier):
                     or (not b.get('changed') and not any('mode recorded' in p_ for p_ in b.get('problems', []))))
 
     def sel_judge(b):
-        sc = {'kind': 'select', 'bands': [{'band': i, 'state': 'closed' if b['closed'].get(i) else 'open', 'hunks': []} for i in b['ids']]}
+        hl = {int(k): v for k, v in (b.get('headless') or {}).items()}
+        sc = {'kind': 'select', 'bands': [{'band': i, 'state': 'closed' if b['closed'].get(i) else
+                                           {'no-head': 'nohead', 'empty-head': 'emptyhead'}.get(hl.get(i), 'open'), 'hunks': []} for i in b['ids']]}
 
         def jf(out):
             want_closed = max([i for i in b['ids'] if b['closed'].get(i)], default=None)
